@@ -637,6 +637,14 @@ class Scheduler:
                     # State is None if this is not the main thread
                     return JobState.ERROR
 
+                if state == JobState.WAITING and job.unsatisfied == 0:
+                    # The start was aborted, but the dependencies became
+                    # available again before the abort completed (the
+                    # notification came while the job lock was released):
+                    # do not lose it, try again
+                    state = JobState.READY
+                    job._readyEvent.set()
+
                 job.state = state
 
         for listener in self.listeners:
